@@ -1,15 +1,15 @@
 package main
 
 import (
-	"context"
-	"math/rand"
-	"sync"
 	"bufio"
+	"context"
 	"fmt"
 	"io"
+	"math/rand"
 	"os"
 	"os/exec"
 	"strings"
+	"sync"
 	"sync/atomic"
 	"time"
 )
@@ -40,6 +40,9 @@ func (p *proc) start() {
 		os.Exit(2)
 	}
 	p.cmd, p.in, p.out, p.n = cmd, in, bufio.NewReader(outp), 0
+	if strings.Contains(p.bin, "cvc5") {
+		fmt.Fprintln(in, "(set-logic ALL)")
+	}
 	fmt.Fprintln(in, "(set-option :produce-models true)")
 }
 
@@ -74,6 +77,7 @@ var (
 	statErrors    atomic.Int64
 	statCacheHits atomic.Int64
 	statRestarts  atomic.Int64
+	statHung      atomic.Int64
 )
 
 // Solver routes String/Int-sorted queries to z3 5.x (z3-new) and pure bit-vector queries to z3 4.8.12
@@ -82,7 +86,9 @@ type Solver struct {
 	str, bvp  *proc
 	cache     map[string]string
 	timeoutMs int
-	single    string // if set, every query goes to this binary (cross-check runs)
+	single    string  // if set, every query goes to this binary (cross-check runs)
+	quick     bool    // short timeout, no retry (set by the caller around one query)
+	alt       *Solver // cvc5, for models under soft preferences (long strings: z3 cannot build 64 KiB string models)
 }
 
 func newSolver(timeoutMs int) *Solver {
@@ -92,13 +98,23 @@ func newSolver(timeoutMs int) *Solver {
 func (s *Solver) close() {
 	s.str.close()
 	s.bvp.close()
+	if s.alt != nil {
+		s.alt.close()
+	}
+}
+
+func (s *Solver) altSolver() *Solver {
+	if s.alt == nil {
+		s.alt = &Solver{cache: map[string]string{}, timeoutMs: 10000, single: "cvc5"}
+	}
+	return s.alt
 }
 
 func (s *Solver) procFor(useStr bool) *proc {
 	if s.single != "" {
 		if s.str == nil {
 			if strings.Contains(s.single, "cvc5") {
-				s.str = startProc(s.single, "--incremental", "--strings-exp", "--produce-models", "--lang=smt2")
+				s.str = startProc(s.single, "--incremental", "--strings-exp", "--produce-models", "--lang=smt2", fmt.Sprintf("--tlimit-per=%d", s.timeoutMs))
 			} else {
 				s.str = startProc(s.single, "-in")
 			}
@@ -124,7 +140,7 @@ func (s *Solver) check(asserts []*Term, wantModel bool, extra []*Term) (string, 
 	res, m, p := s.checkOnce(asserts, wantModel, extra)
 	// z3 degrades on some String queries inside a long push/pop session (same query: 20 ms fresh, 20 s in-session):
 	// a slow or undecided answer is retried once on a fresh process.
-	if p != nil && (res == "unknown" || time.Since(t0) > 1500*time.Millisecond) && p.n > 1 {
+	if p != nil && (res == "unknown" || time.Since(t0) > 1500*time.Millisecond) && p.n > 1 && !s.quick {
 		p.restart()
 		statRestarts.Add(1)
 		if res == "unknown" {
@@ -156,9 +172,31 @@ func (s *Solver) checkOnce(asserts []*Term, wantModel bool, extra []*Term) (stri
 	p := s.procFor(useStr)
 	t0 := time.Now()
 	var q strings.Builder
-	fmt.Fprintf(&q, "(push)\n(set-option :timeout %d)\n", s.timeoutMs)
+	if strings.Contains(p.bin, "cvc5") {
+		fmt.Fprintf(&q, "(push)\n")
+	} else {
+		to := s.timeoutMs
+		if s.quick && to > 3000 {
+			to = 3000
+		}
+		fmt.Fprintf(&q, "(push)\n(set-option :timeout %d)\n", to)
+	}
 	q.WriteString(key)
 	q.WriteString("(check-sat)\n")
+	// hard deadline: a solver process that neither answers nor times out by itself (e.g. it is still waiting for
+	// input because a literal in the query was not closed) is killed; the query counts as unknown
+	hung := false
+	wd := time.AfterFunc(time.Duration(3*s.timeoutMs)*time.Millisecond+20*time.Second, func() {
+		hung = true
+		if os.Getenv("VERIF_DEBUG_SOLVER") != "" {
+			fmt.Fprintf(os.Stderr, "solver hung on\n%s\n", q.String())
+		}
+		p.cmd.Process.Kill()
+	})
+	defer wd.Stop()
+	if d := os.Getenv("VERIF_DEBUG_LASTQ"); d != "" {
+		os.WriteFile(d, []byte(p.bin+"\n"+q.String()), 0o644)
+	}
 	if _, err := io.WriteString(p.in, q.String()); err != nil {
 		p.restart()
 		statRestarts.Add(1)
@@ -167,6 +205,9 @@ func (s *Solver) checkOnce(asserts []*Term, wantModel bool, extra []*Term) (stri
 	}
 	line, err := p.out.ReadString('\n')
 	if err != nil {
+		if hung {
+			statHung.Add(1)
+		}
 		p.restart()
 		statRestarts.Add(1)
 		statUnknown.Add(1)
